@@ -114,12 +114,29 @@ pub fn fe(m: &N) -> BoxedStrategy<Num> {
     let m5 = m.clone();
     let m6 = m.clone();
     let m7 = m.clone();
+    let m8 = m.clone();
+    let m9 = m.clone();
     // R^-1 for R = 2^(64*limbs): values whose *Montgomery representation* is a limb pattern
     let rinv = {
         let r = (N::one() << (64 * nlimbs)) % &m;
         r.modpow(&(&m - 2u32), &m)
     };
+    let sparse32 = move || {
+        // few non-zero 32-bit limbs: a * 2^(32 i) + b * 2^(32 j)
+        (0usize..nlimbs * 2, 0usize..nlimbs * 2, prop_oneof![Just(1u32), Just(u32::MAX), Just(0x8000_0000u32), Just(2u32), any::<u32>()], prop_oneof![3 => Just(0u32), 1 => Just(1u32), 1 => Just(u32::MAX), 1 => any::<u32>()])
+            .prop_map(|(i, j, a, b)| (N::from(a) << (32 * i)) + (N::from(b) << (32 * j)))
+    };
+    let sp1 = sparse32();
+    let sp2 = sparse32();
+    let rinv2 = {
+        let r = (N::one() << (64 * nlimbs)) % &m;
+        r.modpow(&(&m - 2u32), &m)
+    };
     prop_oneof![
+        // the modulus minus a sparse limb pattern (agrees with m in most limbs)
+        2 => sp1.prop_map(move |d| Num((&m8 + &m8 - (d % &m8)) % &m8)),
+        // sparse Montgomery representations: (a*2^(32i) + b*2^(32j)) * R^-1
+        2 => sp2.prop_map(move |d| Num(((d % &m9) * &rinv2) % &m9)),
         // Montgomery-domain limb patterns: v = L * R^-1 mod m with L sparse / patterned (32-bit granularity)
         3 => proptest::collection::vec(prop_oneof![6 => Just(0u32), 1 => Just(1u32), 2 => Just(u32::MAX), 1 => Just(0x8000_0000u32), 1 => Just(0x1000_0000u32), 2 => any::<u32>()], nlimbs * 2)
             .prop_map(move |l| {
